@@ -52,6 +52,8 @@ impl<S: CredentialStore + Sync + Send, U: UserValidationMethod + Sync + Send> U2
         // Create Keypair on P256 curve
         let private_key = {
             let mut rng = rand::thread_rng();
+            #[cfg(passkey_rs_verif)]
+            let mut rng = passkey_types::rand::verif_hooks::HookedRng::new(rng);
             SecretKey::random(&mut rng)
         };
 
